@@ -226,7 +226,10 @@ def case_cli(run, i):
                             dict(method=method, skip_low=skip_low, skip_outliers=float(outl), processes=procs, threshold=thr, variants=None, save_dataframe=False),
                             "segment", truthy=("variants",))
     if r is not None:
-        cli_plumb.held(run, "segment", f"cli-segment:{method}")
+        if len(r[0]["cnarr"]) != len(cols["start"]):
+            run.violate("cli.segment[plumbing]", "segment-cli-passes-wrong-table", f"{len(r[0]['cnarr'])} bins reached do_segmentation, the file holds {len(cols['start'])}", r[2])
+        else:
+            cli_plumb.held(run, "segment", f"cli-segment:{method}")
     seen = getattr(run._tls, "last_seg", None)
     mon = "cli.segment[file]"
     if seen is not None and ("probes" not in seen or not seen["n"]):
